@@ -671,6 +671,28 @@ pub fn fam_ctrl(_cfg: &FunCfg, sink: &mut FunSink) {
     for (name, body) in progs {
         sink.offer(move || FunCase { name: format!("ctrl/{name}"), src: format!("{PRELUDE_TYPES}{PRELUDE_DEFS}{body}\n"), inputs: vec![vec![0], vec![1], vec![2], vec![3], vec![-5]], sequenced: true });
     }
+    // covariable parameters (and the labels passed for them) named inside the namespaces the
+    // translation generates names in; every path — jump to the first, to the second, normal return
+    for (k1, k2) in [("a0", "a1"), ("a1", "a0"), ("a0", "x0"), ("x0", "a0"), ("a", "a0"), ("a5", "a1")] {
+        sink.offer(move || {
+            let body = format!(
+                "def pick(p: i64, {k1} :cns i64, {k2} :cns i64): i64 {{ if p == 0 {{ goto {k1} (1) }} else {{ if p == 1 {{ goto {k2} (2) }} else {{ p + 3 }} }} }}\n                 def one(x: i64, {k1} :cns i64): i64 {{ if x == 0 {{ goto {k1} (7) }} else {{ x }} }}\n                 def main(n: i64): i64 {{ println_i64(label {k2} {{ 10 + (label {k1} {{ 100 + pick(n, {k2}, {k1}) }}) }}); println_i64(label {k1} {{ 100 + one(n, {k1}) }}); 0 }}"
+            );
+            FunCase { name: format!("ctrl/covar_names/{k1}-{k2}"), src: format!("{PRELUDE_TYPES}{PRELUDE_DEFS}{body}\n"), inputs: vec![vec![0], vec![1], vec![2], vec![5]], sequenced: true }
+        });
+    }
+    // empty declarations: a cocase / case without clauses among other binders (before, between,
+    // after them), the empty object passed around and stored
+    let empties: Vec<(&str, &str)> = vec![
+        ("unit_let", "codata Unit { }\ndef main(n: i64): i64 { let x: i64 = n + 1; let u: Unit = new { }; let y: i64 = x * 2; let z: i64 = range(y).case[i64] { Nil => x, Cons(h, t) => h + y }; println_i64(z - x); 0 }"),
+        ("unit_first", "codata Unit { }\ndef main(n: i64): i64 { let u: Unit = new { }; let x: i64 = n + 1; let y: i64 = x * 2; println_i64((let z: i64 = y - x; z * 3) + x); 0 }"),
+        ("unit_arg", "codata Unit { }\ndef keep(u: Unit, v: i64): i64 { let w: i64 = v + 1; w * 2 }\ndef main(n: i64): i64 { let x: i64 = n + 5; println_i64(keep(new { }, x) + x); let y: i64 = keep(new { }, n); println_i64(y - x); 0 }"),
+        ("unit_field", "codata Unit { }\ndata Box { MkBox(u: Unit, v: i64) }\ndef main(n: i64): i64 { let b: Box = MkBox(new { }, n + 2); println_i64(b.case { MkBox(u, v) => let w: i64 = v * 3; w - n }); 0 }"),
+        ("unit_in_helper", "codata Unit { }\ndef mk(n: i64): Unit { new { } }\ndef g(a: i64, b: i64): i64 { let u: Unit = mk(a); let c: i64 = a - b; let d: i64 = c * 2; d + a }\ndef main(n: i64): i64 { println_i64(g(n, 3)); println_i64(g(10, n)); 0 }"),
+    ];
+    for (name, body) in empties {
+        sink.offer(move || FunCase { name: format!("ctrl/empty/{name}"), src: format!("{PRELUDE_TYPES}{PRELUDE_DEFS}{body}\n"), inputs: vec![vec![0], vec![1], vec![4]], sequenced: true });
+    }
 }
 
 // ---- codata: by-name bindings, streams, lazy pairs, multi-destructor objects ------------------------
@@ -738,6 +760,22 @@ pub fn fam_names(_cfg: &FunCfg, sink: &mut FunSink) {
             );
             FunCase { name: format!("names/var/{vn}"), src, inputs: vec![vec![0], vec![2]], sequenced: true }
         });
+    }
+    // names that are prefixes of each other across declarations of the same shape, used at the same
+    // type arguments: destructors `app`/`app2`, constructors `Mk`/`Mk2`, types `Fn`/`Fn2`, in both
+    // orders of first use (the definition that creates an instance first comes first / last)
+    for (d1, d2) in [("app", "app2"), ("app2", "app"), ("get", "getOr"), ("d1", "d10")] {
+        for order in 0..2 {
+            sink.offer(move || {
+                let use_def = format!("def use(n: i64): i64 {{ (mkb(n).{d2}[i64, i64](1, 2)) + (mka(n).{d1}[i64, i64](3)) }}");
+                let mk_defs = format!("def mka(n: i64): Fn[i64, i64] {{ new {{ {d1}(x) => x + n }} }}\ndef mkb(n: i64): Fn2[i64, i64] {{ new {{ {d2}(x, y) => (x * y) + n }} }}");
+                let defs = if order == 0 { format!("{use_def}\n{mk_defs}") } else { format!("{mk_defs}\n{use_def}") };
+                let src = format!(
+                    "{PRELUDE_TYPES}codata Fn[A, B] {{ {d1}(x: A): B }}\ncodata Fn2[A, B] {{ {d2}(x: A, y: A): B }}\ndata Bx[A] {{ Mk(a: A) }}\ndata Bx2[A] {{ Mk2(a: A, b: A) }}\n{PRELUDE_DEFS}{defs}\n                     def unbox(n: i64): i64 {{ (Mk2(n, 1).case[i64] {{ Mk2(a, b) => a - b }}) + (Mk(n).case[i64] {{ Mk(a) => a * 2 }}) }}\n                     def main(n: i64): i64 {{ println_i64(use(n)); println_i64(unbox(n)); 0 }}\n"
+                );
+                FunCase { name: format!("names/prefix/{d1}-{d2}/o{order}"), src, inputs: vec![vec![0], vec![3]], sequenced: true }
+            });
+        }
     }
     let type_names = [("Cont", "Ret"), ("List_1", "Nil_"), ("T", "C"), ("Lab1", "Cleanup")];
     for (tn, cn) in type_names {
@@ -1112,6 +1150,16 @@ pub fn fam_positions(_cfg: &FunCfg, sink: &mut FunSink) {
                 let src = format!("{PRELUDE_TYPES}{PRELUDE_DEFS}def sub2(p: i64, q: i64): i64 {{ p - q }}\ndef f(x: i64): i64 {{ {body} }}\ndef main(n: i64): i64 {{ println_i64(f(n)); println_i64(f(7)); 0 }}\n");
                 FunCase { name: format!("positions/{bn}/{pn}"), src, inputs: vec![vec![0], vec![3]], sequenced: true }
             });
+            // the same block one level further down: as the argument of a call, of a constructor
+            // and of a destructor that itself sits in the position (the position's term former then
+            // sees a call / case / destructor, not a parenthesized block)
+            for (wn, wrap) in [("call", "idf(#)"), ("ctor", "(Cons(#, Nil).case[i64] { Nil => 0, Cons(hh, tt) => hh })"), ("dtor", "((new { ap(qq) => qq }).ap[i64, i64](#))")] {
+                sink.offer(move || {
+                    let body = pos.replace('#', &wrap.replace('#', block));
+                    let src = format!("{PRELUDE_TYPES}{PRELUDE_DEFS}def sub2(p: i64, q: i64): i64 {{ p - q }}\ndef idf(v: i64): i64 {{ v }}\ndef f(x: i64): i64 {{ {body} }}\ndef main(n: i64): i64 {{ println_i64(f(n)); println_i64(f(7)); 0 }}\n");
+                    FunCase { name: format!("positions/{bn}-{wn}/{pn}"), src, inputs: vec![vec![0], vec![3]], sequenced: true }
+                });
+            }
         }
     }
 }
@@ -1135,11 +1183,27 @@ pub fn fam_effect(_cfg: &FunCfg, sink: &mut FunSink) {
         ("chain_dtor_dtor", T::Var("curry3(2).ap[i64, Fun[i64, i64]]((println_i64(1); n)).ap[i64, i64]((println_i64(2); 5))".into())),
         ("chain_three", T::Var("curry3((println_i64(1); n)).ap[i64, Fun[i64, i64]]((println_i64(2); 3)).ap[i64, i64]((println_i64(3); 4))".into())),
         ("chain_stream", T::Var("add3((println_i64(1); n), nats((println_i64(2); 4)).tl[i64].hd[i64], (println_i64(3); 1))".into())),
+        // constructor applications nested in argument positions, an effect at depth two followed by an
+        // effect in a later sibling
+        ("ctor_nested_l", T::Var("sumpl(Tup(Cons((println_i64(1); n), Nil), (println_i64(2); 2)))".into())),
+        ("ctor_nested_r", T::Var("sumpr(Tup((println_i64(1); n), Cons((println_i64(2); 2), Nil)))".into())),
+        ("ctor_nested_both", T::Var("sumpp(Tup(Cons((println_i64(1); n), Nil), Cons((println_i64(2); 2), Cons((println_i64(3); 3), Nil))))".into())),
+        ("call_nested", T::Var("suml2(Cons((println_i64(1); n), Cons((println_i64(2); 1), Nil)), (println_i64(3); 2))".into())),
+        ("dtor_nested", T::Var("mksum(1).ap[List[i64], i64](Cons((println_i64(1); n), Cons((println_i64(2); 2), Nil)))".into())),
+        ("ctor_nested_exit", T::Var("sumpl(Tup(Cons((if n == 2 { exit 7 } else { println_i64(1); n }), Nil), (println_i64(2); 2)))".into())),
+        ("ctor_nested_goto", T::Var("label a { sumpl(Tup(Cons((if n == 2 { goto a (7) } else { println_i64(1); n }), Nil), (println_i64(2); 2))) }".into())),
     ];
+    let mut shapes = shapes;
+    // both operands of every comparison with effects (print, jump), and mirrored spellings
+    for (c, cn) in [("==", "eq"), ("!=", "ne"), ("<", "lt"), ("<=", "le"), (">", "gt"), (">=", "ge")] {
+        shapes.push((Box::leak(format!("cmp_{cn}").into_boxed_str()), if_(c, p(1, var("n")), p(2, lit(2)), p(3, lit(10)), p(4, lit(20)))));
+        shapes.push((Box::leak(format!("cmp_{cn}_calls").into_boxed_str()), T::Var(format!("if tick(n) {c} tick(2) {{ (println_i64(3); 10) }} else {{ (println_i64(4); 20) }}"))));
+        shapes.push((Box::leak(format!("cmp_{cn}_goto").into_boxed_str()), T::Var(format!("label a {{ if (if n == 2 {{ goto a (5) }} else {{ println_i64(1); n }}) {c} tick(1) {{ 10 }} else {{ 20 }} }}"))));
+    }
     for (name, t) in shapes {
         sink.offer(move || {
             let src = format!(
-                "{PRELUDE_TYPES}{PRELUDE_DEFS}def add3(p: i64, q: i64, r: i64): i64 {{ (p + q) + r }}\ndef twice(f: Fun[i64, i64], v: i64): i64 {{ f.ap[i64, i64](f.ap[i64, i64](v)) }}\ndef mkadd(d: i64): Fun[i64, i64] {{ new {{ ap(q) => q + d }} }}\ndef curry3(d: i64): Fun[i64, Fun[i64, i64]] {{ new {{ ap(a) => new {{ ap(b) => (a * d) - b }} }} }}\n{}",
+                "{PRELUDE_TYPES}{PRELUDE_DEFS}def add3(p: i64, q: i64, r: i64): i64 {{ (p + q) + r }}\ndef twice(f: Fun[i64, i64], v: i64): i64 {{ f.ap[i64, i64](f.ap[i64, i64](v)) }}\ndef mkadd(d: i64): Fun[i64, i64] {{ new {{ ap(q) => q + d }} }}\ndef curry3(d: i64): Fun[i64, Fun[i64, i64]] {{ new {{ ap(a) => new {{ ap(b) => (a * d) - b }} }} }}\ndef tick(v: i64): i64 {{ println_i64(v + 100); v }}\ndef sumpl(p: Pair[List[i64], i64]): i64 {{ p.case[List[i64], i64] {{ Tup(a, b) => sum(a) + (b * 10) }} }}\ndef sumpr(p: Pair[i64, List[i64]]): i64 {{ p.case[i64, List[i64]] {{ Tup(a, b) => a + (sum(b) * 10) }} }}\ndef sumpp(p: Pair[List[i64], List[i64]]): i64 {{ p.case[List[i64], List[i64]] {{ Tup(a, b) => sum(a) + (sum(b) * 10) }} }}\ndef suml2(l: List[i64], v: i64): i64 {{ sum(l) + (v * 10) }}\ndef mksum(d: i64): Fun[List[i64], i64] {{ new {{ ap(l) => sum(l) + d }} }}\n{}",
                 main_def(&["n"], print(true, t, lit(0))).render()
             );
             FunCase { name: format!("effect/{name}"), src, inputs: vec![vec![0], vec![2]], sequenced: false }
